@@ -333,19 +333,12 @@ def check_extract_key(chk, v, rule):
         seen = {}
 
         def go(loops, k_, env, rec):
-            if k_ == len(loops):
-                rec(env)
-                return
-            l = loops[k_]
-            lo, hi, st = eval_term(l["lo"], env), eval_term(l["hi"], env), sym.const_value(l["step"])
-            if lo is None or hi is None or not st or st <= 0 or l["cmp"] not in ("<", "<="):
-                raise AnalysisBroken("tLweExtractKey: loop at line %s not evaluable" % l.get("l"))
-            x = lo
-            while (x < hi) if l["cmp"] == "<" else (x <= hi):
-                e2 = dict(env)
-                e2[l["var"]] = x
-                go(loops, k_ + 1, e2, rec)
-                x += st
+            from sa import concrete
+            try:
+                for e2 in concrete.iterate(loops, env):
+                    rec(e2)
+            except concrete.NotEvaluable as e:
+                raise AnalysisBroken("tLweExtractKey: %s" % e)
         for loops, guards, lv, val, line in stmts:
             def rec(env, lv=lv, val=val, line=line, guards=guards):
                 for g_ in guards:
